@@ -102,12 +102,16 @@ def run(ck):
                             ('late-gaps-second-file', [gen.fasta(names[:50], seqs[:50]), gen.fasta(names[50:], late)]),
                             ('late-stop-marker', [gen.fasta(names, seqs[:-1] + [seqs[-1] + '*'])])]
                 elif sub == 1:
-                    n = rng.choice([511, 512, 513, 530])
+                    n = [530, 514, 1030, 512, 511][(k // 32) % 5]
                     seqs = [gen.rand_seq(rng, alpha, rng.range(3, 6)) + tail for _ in range(n)]
                     names = ['m%d' % i for i in range(n)]
                     rows = gapify(rng, seqs, 0.3)
                     pres = [('fasta-ref', [gen.fasta(names, seqs)]), ('many-clustal', [render_clu(names, rows, 60, 0)]),
                             ('many-msf', [render_msf(names, rows, 50, kind == 'protein')]), ('many-afa', [gen.fasta(names, rows)])]
+                    if n >= 513:   # several inputs, the first filling the 512-slot sequence array exactly (merge_msa appends into it)
+                        pres.append(('split-first-exactly-512', [gen.fasta(names[:512], seqs[:512]), gen.fasta(names[512:], seqs[512:])]))
+                        pres.append(('split-three-512-1-rest', [gen.fasta(names[:512], seqs[:512]), gen.fasta(names[512:513], seqs[512:513]), gen.fasta(names[513:], seqs[513:])] if n > 514 else
+                                     [gen.fasta(names[:512], seqs[:512]), gen.fasta(names[512:], seqs[512:])]))
                 elif sub == 2:
                     Ls = [rng.choice([511, 512, 513, 1023, 1024, 1025]) for _ in range(3)]
                     seqs = [gen.rand_seq(rng, alpha, L) + tail for L in Ls]
